@@ -892,7 +892,7 @@ static void enumerate(int maxlen, const std::vector<int>* single, double deadlin
         return;
     }
     long long before = g_scen;
-    std::vector<int> seq;
+    std::vector<int> seq, sample_seq;
     bool capped = false;
     // iterative deepening: all sequences of length 0, then 1, ... so that a cap names a completed length
     int completed = -1;
@@ -906,6 +906,7 @@ static void enumerate(int maxlen, const std::vector<int>* single, double deadlin
             if (g_shared) std::snprintf(g_shared, 4000, "%s", seq.empty() ? "-" : seq_str(seq).c_str());
             R r(seq);
             r.go();
+            if (g_scen - before == 777 || (len == 2 && sample_seq.empty())) sample_seq = seq;
             if ((g_scen & 255) == 0 && now_s() > deadline) { capped = true; break; }
             int k = len - 1;
             while (k >= 0 && ++idx[k] == int(alphabet.size())) { idx[k] = 0; --k; }
@@ -915,11 +916,13 @@ static void enumerate(int maxlen, const std::vector<int>* single, double deadlin
     }
     if (capped) vf::cap("deadline reached in group " + group + ": all sequences up to length " + vf::str(completed) + " done, length " + vf::str(completed + 1) + " incomplete");
     vf::smax("max_sequence_length_completed", completed);
-    if (g_scen - before > 0 && (std::is_same<Cat, LV>::value || std::is_same<Cat, XV>::value) && std::is_same<P, Counted>::value && maxlen >= 2)
+    if (!sample_seq.empty() && std::is_same<P, Counted>::value &&
+        ((std::is_same<Cat, LV>::value && (C07_KIND == 0 || C07_KIND == 4 || C07_KIND == 5 || C07_KIND == 8 || C07_KIND == 11)) ||
+         (std::is_same<Cat, XV>::value && (C07_KIND == 0 || C07_KIND == 6))))
     {
-        std::string s = "ops: ";
+        std::string s;
         for (int o : alphabet) { s += op_name[o]; s += " "; }
-        vf::sample(group + ": every sequence of length <= " + vf::str(maxlen) + " over {" + s + "}; e.g. " + seq_names(seq), 6);
+        vf::sample(group + ": every sequence of length <= " + vf::str(maxlen) + " over { " + s + "}, e.g. " + seq_names(sample_seq), 6);
     }
     vf::stat(std::string("scenarios[") + K::name() + "]", g_scen - before);
 }
